@@ -733,8 +733,10 @@ static int walk_loop(cif_loop_tp *loop, cif_handler_tp *handler, void *context) 
         } else {
             cif_packet_tp *packet = NULL;
             int close_result;
+            int next_result;
 
-            while ((result = cif_pktitr_next_packet(iterator, &packet)) == CIF_OK) {
+            /* the iterator's own result is kept apart from handler results, which may be any code, CIF_FINISHED included */
+            while ((next_result = cif_pktitr_next_packet(iterator, &packet)) == CIF_OK) {
                 int packet_result = walk_packet(packet, handler, context);
 
                 switch (packet_result) {
@@ -751,16 +753,19 @@ static int walk_loop(cif_loop_tp *loop, cif_handler_tp *handler, void *context) 
                 result = packet_result;
                 break;
             }
+            if (next_result != CIF_OK) {
+                result = next_result;
+            }
 
             /* Clean up the packet */
             cif_packet_free(packet);
 
             /* The iterator must be closed or aborted; we choose to close in case the walker modified the CIF */
-            if (((close_result = cif_pktitr_close(iterator)) != CIF_OK) && (result == CIF_FINISHED)) {
+            if (((close_result = cif_pktitr_close(iterator)) != CIF_OK) && (next_result == CIF_FINISHED)) {
                 result = close_result;
             } /* else suppress any second error in favor of a first one */
 
-            if (result != CIF_FINISHED) {
+            if ((next_result != CIF_FINISHED) || (result != CIF_FINISHED)) {
                 return result;
             }
 
